@@ -2,7 +2,8 @@
    (MISC_SHARES_VIA_AGGREGATE + aggregates) included: whatever the pipeline returns as a candidate list is a list of
    combinations of the specification. *)
 From PV Require Import Spec.CandSpec Proofs.Defs Proofs.C13 Proofs.C03 Proofs.C02 Proofs.C02m Proofs.C03e Proofs.C03s Proofs.C03c
-                       Proofs.C03p Proofs.C03u Proofs.Reach.
+                       Proofs.C03p Proofs.C03u Proofs.Reach Proofs.C02c.
+From PV Require Proofs.C01 Proofs.C09.
 From Coq Require Import Permutation.
 
 (* ================================================================ hypotheses on the database *)
@@ -515,11 +516,79 @@ Proof.
   repeat split; try congruence; auto.
 Qed.
 
+(* ================================================================ int(capacity) against floor(capacity) *)
+(* The merge tests the summed amounts against the provider summaries (capacity = int((total - reserved) * ratio)), the
+   specification against the real-valued capacity (floor). They agree when the product is not negative (caps_nonneg),
+   and also - whatever the inventories - when no usage is negative, because a negative product truncates to <= 0.
+   caps_nonneg is NOT an invariant of the service (from 1.26 an inventory with reserved > total and a small
+   allocation_ratio is accepted: int(-0.1) = 0 is not < 0); non-negative usage is. *)
+Definition cap_ok (d : db) : Prop :=
+  forall i amt, In i (invs d) -> 1 <= amt ->
+    usage d (i_rp i) (i_rc i) + amt <= cap_trunc i -> usage d (i_rp i) (i_rc i) + amt <= cap_floor i.
+Definition usage_nonneg (d : db) : Prop := forall u rc, 0 <= usage d u rc.
+
+Lemma caps_nonneg_cap_ok d : caps_nonneg d -> cap_ok d.
+Proof. intros H i amt Hi _ Hle. rewrite <- (cap_trunc_floor i (H i Hi)). exact Hle. Qed.
+
+Lemma pow2_nonneg k : 0 <= 2 ^ k.
+Proof. destruct (Z_lt_le_dec k 0) as [H|H]; [rewrite Z.pow_neg_r by exact H; lia|apply Z.pow_nonneg; lia]. Qed.
+Lemma div_pow2_nonneg q k : 0 <= q -> 0 <= q / 2 ^ k.
+Proof.
+  intro Hq. destruct (Z.eq_dec (2 ^ k) 0) as [E|E]; [rewrite E, Zdiv_0_r; lia|].
+  apply Z.div_pos; [exact Hq|]. pose proof (pow2_nonneg k). lia.
+Qed.
+Lemma round53_nonneg N e : 0 <= N -> 0 <= fst (round53 N e).
+Proof.
+  intro H. unfold round53. cbv zeta. destruct (Z.log2 N + 1 <=? 53); cbn [fst]; [exact H|].
+  unfold round_shift. cbv zeta. pose proof (div_pow2_nonneg N (Z.log2 N + 1 - 53) H). destruct (_ || _); lia.
+Qed.
+Lemma floor_dy_nonneg q e : 0 <= q -> 0 <= floor_dy q e.
+Proof.
+  intro H. unfold floor_dy. destruct (0 <=? e); [pose proof (pow2_nonneg e); nia|apply div_pow2_nonneg; exact H].
+Qed.
+(* int() of a negative product is not positive *)
+Lemma fprod_trunc_neg n m e : n * m < 0 -> fprod_trunc n m e <= 0.
+Proof.
+  intro H. unfold fprod_trunc. cbv zeta. destruct (0 <=? n * m) eqn:E; [apply Z.leb_le in E; lia|].
+  pose proof (round53_nonneg (- (n * m)) e ltac:(lia)) as Hq. destruct (round53 (- (n * m)) e) as [q e']. cbn [fst] in Hq.
+  pose proof (floor_dy_nonneg q e' Hq). lia.
+Qed.
+Lemma usage_nonneg_cap_ok d : usage_nonneg d -> cap_ok d.
+Proof.
+  intros H i amt Hi Ha Hle. destruct (Z_lt_le_dec ((i_total i - i_reserved i) * i_rm i) 0) as [Hn|Hp].
+  - exfalso. pose proof (fprod_trunc_neg _ _ (i_re i) Hn) as Ht. unfold cap_trunc in Hle.
+    specialize (H (i_rp i) (i_rc i)). lia.
+  - rewrite <- (cap_trunc_floor i Hp). exact Hle.
+Qed.
+
+(* every summed amount of an assignment is positive when the requested amounts are *)
+Lemma summed_pos q asg : amounts_pos q -> forall x, In x (summed q asg) -> 1 <= rr_amt x.
+Proof.
+  intro Hpos. unfold summed. apply fold_sum_pos; [intros ? []|].
+  intros pl Hpl. unfold placements in Hpl. apply in_app_iff in Hpl. destruct Hpl as [Hpl|Hpl].
+  - apply in_map_iff in Hpl. destruct Hpl as [[p y] [<- Hin]]. cbn [snd]. apply in_combine_r in Hin.
+    unfold un_resources in Hin. destruct (unsuffixed_group q) as [g|] eqn:E; [|destruct Hin].
+    apply (Hpos g (unsuffixed_in q g E) y Hin).
+  - apply in_flat_map in Hpl. destruct Hpl as [[p g] [Hin Hpl]]. apply in_map_iff in Hpl.
+    destruct Hpl as [y [<- Hy]]. cbn [snd]. apply in_combine_r in Hin. apply (Hpos g (suffixed_in q g Hin) y Hy).
+Qed.
+Lemma query_wf_amounts_pos v q : query_wf v q = true -> amounts_pos q.
+Proof.
+  unfold query_wf. cbv zeta. intro H.
+  repeat match type of H with (_ && _ = true) => let H' := fresh "W" in apply andb_true_iff in H; destruct H as [H H'] end.
+  intros g Hg x Hx.
+  match goal with X : forallb (group_wf v) _ = true |- _ => rewrite forallb_forall in X; specialize (X g Hg); rename X into Hgw end.
+  unfold group_wf in Hgw.
+  repeat match type of Hgw with (_ && _ = true) => let H' := fresh "G" in apply andb_true_iff in Hgw; destruct Hgw as [Hgw H'] end.
+  match goal with X : forallb (fun x0 => 1 <=? snd x0) (g_resources g) = true |- _ => rewrite forallb_forall in X; specialize (X x Hx) end.
+  apply Z.leb_le. assumption.
+Qed.
+
 (* ================================================================ from an assignment to a candidate of the specification *)
 (* the consolidated request c1 has the summed allocations of the assignment asg, whose slots are acceptable and whose
    slots pass the joint conditions: c1 is (up to same_creq) a candidate of the specification *)
 Lemma sound_tail v q d asg c1 :
-  rps_wf d -> parentless_root d -> caps_nonneg d ->
+  rps_wf d -> parentless_root d -> cap_ok d -> amounts_pos q ->
   In (as_anchor asg) (tree_roots d) ->
   match unsuffixed_group q with
   | Some g => Forall2 (fun p x => usable d (as_anchor asg) p /\ un_slot_ok d g (as_anchor asg) x p = true) (as_un asg) (g_resources g)
@@ -541,7 +610,7 @@ Lemma sound_tail v q d asg c1 :
    lenZ (dedup (map rr_rp (cr_rrs c1))) = lenZ (dedup (map (root_of d) (dedup (map rr_rp (cr_rrs c1)))))) ->
   exists c', In c' (map (creq_view v) (spec_candidates v q d)) /\ same_creq (creq_view v c1) c' = true.
 Proof.
-  intros Hwf Hpr Hcap HR Hun Hsuf A1 A2 Hreq Hpol Hsst Hrr Hsame Hexc Hkept.
+  intros Hwf Hpr Hcap Hpos HR Hun Hsuf A1 A2 Hreq Hpol Hsst Hrr Hsame Hexc Hkept.
   assert (Hps_ex : forall p, In p (as_un asg) \/ In p (as_suff asg) -> ex d p).
   { intros p [Hp|Hp].
     - destruct (unsuffixed_group q) as [g|]; [|rewrite Hun in Hp; destruct Hp].
@@ -564,8 +633,10 @@ Proof.
         congruence. }
       destruct (find_inv d (rr_rp x) (rr_rc x)) as [i|] eqn:Fi; [|discriminate].
       apply orb_false_iff in Hfx. destruct Hfx as [H1 H2]. apply Z.ltb_ge in H1, H2.
-      apply find_inv_l_Some' in Fi. destruct Fi as [Hi _]. rewrite (cap_trunc_floor i (Hcap i Hi)) in H1.
-      apply andb_true_iff. split; apply Z.leb_le; lia.
+      apply find_inv_l_Some' in Fi. destruct Fi as [Hi [Ep Ec]].
+      assert (H1' : usage d (i_rp i) (i_rc i) + rr_amt x <= cap_floor i).
+      { apply (Hcap i (rr_amt x) Hi (summed_pos q asg Hpos x Hx)). rewrite Ep, Ec. lia. }
+      rewrite Ep, Ec in H1'. apply andb_true_iff. split; apply Z.leb_le; lia.
     - (* before 1.29: one provider per tree *)
       destruct (29 <=? v) eqn:Ev; [reflexivity|]. cbn [orb].
       assert (Hperm : Permutation (dedup (map rr_rp (cr_rrs c1))) (dedup (map rr_rp (summed q asg)))).
@@ -591,13 +662,14 @@ Proof.
 Qed.
 
 (* ================================================================ the theorem *)
-Theorem c03_sound : forall v q d a s,
-  rps_wf d -> parentless_root d -> caps_nonneg d -> aggs_wf d -> un_rcs_nodup q ->
+Theorem c03_sound_gen : forall v q d a s,
+  rps_wf d -> parentless_root d -> cap_ok d -> aggs_wf d -> un_rcs_nodup q ->
   candidates v q d = COk a s ->
   forall c, In c a -> exists c', In c' (map (creq_view v) (spec_candidates v q d)) /\ same_creq c c' = true.
 Proof.
   intros v q d a s Hwf Hpr Hcap Hag Hrcs Hcand c Hc.
   destruct (candidates_inv v q d a s Hcand) as [Hqwf [->|[anchors [cands [st [Hanch [Hloop Hfin]]]]]]]; [destruct Hc|].
+  pose proof (query_wf_amounts_pos v q Hqwf) as Hpos.
   set (rw := mkRwCtx (has_provider_trees d) (29 <=? v) anchors (qy_policy q) (qy_same_subtree q)) in *.
   assert (Hsfx : NoDup (map g_suffix (qy_groups q))).
   { apply dedup_length_nodup. apply lenZ_eq. apply (query_wf_facts v q Hqwf). }
@@ -675,7 +747,7 @@ Proof.
     assert (Hsame1 : same_creq c1 (creq_of q asg) = true).
     { unfold same_creq in *. rewrite Ec1, Err, Emaps. exact Hsame. }
     destruct (anchor_traits_ok d q anchors _ _ _ _ an Hanch HfaR) as [A1 A2].
-    apply (sound_tail v q d asg c1 Hwf Hpr Hcap); cbn [as_anchor as_un as_suff asg]; try rewrite Hun; try rewrite Hsg; try assumption.
+    apply (sound_tail v q d asg c1 Hwf Hpr Hcap Hpos); cbn [as_anchor as_un as_suff asg]; try rewrite Hun; try rewrite Hsg; try assumption.
     + apply is_root_tree_roots. exact HisR.
     + eapply Forall2_impl; [|exact HFun]. cbv beta. intros p x [Hex [Hav Hok]]. split; [split|]; assumption.
     + apply Forall2_app; [eapply Forall2_impl; [|exact HFppre]|eapply Forall2_impl; [|exact HFppost]]; cbv beta;
@@ -719,7 +791,7 @@ Proof.
     destruct (Forall2_In_r _ _ _ _ HF2 Hg1) as [gc1 [_ [_ [_ [[p1 [A1' [_ [_ [Hfa1 [_ [HisA1 Ec1']]]]]]] Han1]]]]].
     assert (EA : A1' = an) by (rewrite Ec1' in Han1; exact Han1). subst A1'.
     destruct (anchor_traits_ok d q anchors _ _ _ _ an Hanch Hfa1) as [A1 A2].
-    apply (sound_tail v q d asg c1 Hwf Hpr Hcap); cbn [as_anchor as_un as_suff asg]; try rewrite Hun; try rewrite Hsg; try assumption;
+    apply (sound_tail v q d asg c1 Hwf Hpr Hcap Hpos); cbn [as_anchor as_un as_suff asg]; try rewrite Hun; try rewrite Hsg; try assumption;
       try reflexivity.
     + apply is_root_tree_roots. exact HisA1.
     + eapply Forall2_impl; [|exact HFp]. cbv beta. intros p g [Hex [Hok Hav]]. split; [split|]; assumption.
@@ -735,7 +807,55 @@ Proof.
       rewrite subtree_lists in Hsst. apply subtree_same. exact Hsst.
 Qed.
 
+(* with non-negative capacities (the form proved first) *)
+Theorem c03_sound : forall v q d a s,
+  rps_wf d -> parentless_root d -> caps_nonneg d -> aggs_wf d -> un_rcs_nodup q ->
+  candidates v q d = COk a s ->
+  forall c, In c a -> exists c', In c' (map (creq_view v) (spec_candidates v q d)) /\ same_creq c c' = true.
+Proof.
+  intros v q d a s Hwf Hpr Hcap. apply c03_sound_gen; try assumption. apply caps_nonneg_cap_ok. exact Hcap.
+Qed.
+
+(* ================================================================ every reachable state *)
+Lemma chain_parentless l u top r : chain l u top -> find_rp_l l u = Some r -> rp_parent r = None -> top = u.
+Proof. intros H F P. inversion H as [u0 r0 F0 P0|u0 r0 p top0 F0 P0 _]; subst; [reflexivity|]. rewrite F in F0. injection F0 as <-. congruence. Qed.
+Lemma Forest_rps_wf d : Forest d -> rps_wf d.
+Proof.
+  intros [Hnd HF]. split; [exact Hnd|]. intros r Hr. destruct (chain_top_parentless _ _ _ (HF r Hr)) as [r' [F P]].
+  unfold is_root, find_rp. rewrite F. apply Z.eqb_eq. pose proof (find_rp_l_Some _ _ _ F) as [Hr' Eu].
+  pose proof (HF r' Hr') as Hc. rewrite Eu in Hc. apply (chain_parentless _ _ _ r' Hc F P).
+Qed.
+Lemma Forest_parentless_root d : Forest d -> parentless_root d.
+Proof.
+  intros [Hnd HF] r Hr P. apply (chain_parentless (rps d) (rp_uuid r) (rp_root r) r (HF r Hr)); [|exact P].
+  apply find_rp_l_In; assumption.
+Qed.
+Lemma allocs_pos_usage_nonneg d : allocs_pos d -> usage_nonneg d.
+Proof.
+  intros H u rc. unfold allocs_pos in H. unfold usage. induction (allocs d) as [|a l IH] in H |- *; cbn [usage_l]; [lia|].
+  assert (Ha : 0 < a_used a) by (apply H; left; reflexivity).
+  assert (IH' : 0 <= usage_l l u rc) by (apply IH; intros b Hb; apply H; right; exact Hb).
+  destruct (_ && _); lia.
+Qed.
+
+(* whatever the service model returns in a state reached by well-formed requests is a list of combinations of the
+   specification: every database hypothesis of c03_sound_gen is an invariant *)
+Theorem c03_sound_reachable : forall cf l v q a s,
+  reqs_wf l -> un_rcs_nodup q ->
+  candidates v q (run cf db0 l) = COk a s ->
+  forall c, In c a -> exists c', In c' (map (creq_view v) (spec_candidates v q (run cf db0 l))) /\ same_creq c c' = true.
+Proof.
+  intros cf l v q a s Hl Hrcs. pose proof (C09.c09_invariant cf l) as HF.
+  apply c03_sound_gen; try assumption.
+  - apply Forest_rps_wf. exact HF.
+  - apply Forest_parentless_root. exact HF.
+  - apply usage_nonneg_cap_ok. apply allocs_pos_usage_nonneg. apply (C01.c01_allocs_pos_reachable cf). exists l. auto.
+  - apply (reachable_aggs_wf cf). exists l. auto.
+Qed.
+
 Print Assumptions c03_sound.
+Print Assumptions c03_sound_gen.
+Print Assumptions c03_sound_reachable.
 
 (* ================================================================ the hypotheses, as one executable test *)
 Definition sound_db_b (d : db) : bool :=
